@@ -16,13 +16,12 @@ static inline void ghost_child_any(void)
   g.kill_calls = nondet_int();
   g.wait_calls = nondet_int();
   g.pl.poll_calls = nondet_int();
-  g.rl.rd_calls = nondet_int();
-  g.wl.wr_calls = nondet_int();
+  g.rl.rd_calls = nondet_uint();
+  g.wl.wr_calls = nondet_uint();
   __CPROVER_assume(g.child_pid >= 0 && WST_LEGAL(g.child_wstatus));
   __CPROVER_assume(g.reaps >= 0 && g.reaps <= 1 && g.nsig >= 0 && g.nsig < 3);
   __CPROVER_assume(g.kill_calls >= 0 && g.kill_calls < 50 && g.wait_calls >= 0 && g.wait_calls < 50);
   __CPROVER_assume(g.pl.poll_calls >= 0 && g.pl.poll_calls < 50);
-  __CPROVER_assume(g.rl.rd_calls >= 0 && g.rl.rd_calls < 50 && g.wl.wr_calls >= 0 && g.wl.wr_calls < 50);
   __CPROVER_assume(IMPLIES(g.child_pid == 0, !g.child_live && !g.child_reaped && g.reaps == 0));
   __CPROVER_assume(IMPLIES(g.child_pid > 0, g.child_live != g.child_reaped && g.child_reaped == (g.reaps == 1)));
   g.child_fate = FATE_NONE;
